@@ -382,9 +382,19 @@ struct CreateTargetRect {
  * @param yvs vertical vars
  * @param ycs vertical constraints
  */
+#ifdef ADAPTAGRAMS_VERIF
+// Verification hook (off by default): set while applyResizes() is executing,
+// so that a failing invariant check can be attributed to the resize step
+// rather than to an ordinary layout iteration.  Left set when applyResizes()
+// is left by an exception; the harness resets it.
+int verif_topology_in_resize = 0;
+#endif
 void applyResizes(Nodes& nodes, Edges& edges, RootCluster *clusters, 
         ResizeMap& resizes, Variables& xvs, Constraints& xcs, 
         Variables& yvs, Constraints& ycs) {
+#ifdef ADAPTAGRAMS_VERIF
+    verif_topology_in_resize = 1;
+#endif
     // targets will hold an overlap free placement of the resized rectangles
     Rectangles targets(nodes.size());
     // rectangles that are resized should be fixed when finding overlap free placement
@@ -395,5 +405,8 @@ void applyResizes(Nodes& nodes, Edges& edges, RootCluster *clusters,
     resizeAxis(vpsc::XDIM, targets, nodes, edges, clusters, resizes, xvs, xcs);
     resizeAxis(vpsc::YDIM, targets, nodes, edges, clusters, resizes, yvs, ycs);
     feach(targets,delete_object());
+#ifdef ADAPTAGRAMS_VERIF
+    verif_topology_in_resize = 0;
+#endif
 }
 } // namespace topology
